@@ -135,16 +135,50 @@ def check_merge(case):
     if not out and edit and not case.get('frozen') and tracks_d and tracks_d[edit[0] % len(tracks_d)]:
         ti = edit[0] % len(tracks_d)
         mi = edit[1] % len(tracks_d[ti])
-        tracks[ti][mi].time = tracks[ti][mi].time + edit[2]
         edited = [[dict(d) for d in tr] for tr in tracks_d]
-        edited[ti][mi]['time'] += edit[2]
-        want2 = F.merge_model(edited)
-        try:
-            res2 = mido.merge_tracks(tracks)
-            if len(res2) != len(want2) or any(_same_loose(m, d) for m, d in zip(res2, want2)):
-                out.append(fail('stale-merge', f'merge after editing track {ti} message {mi} does not reflect the edit'))
-        except Exception as exc:  # noqa: BLE001
-            out.append(fail('raises', f'second merge: {exc!r}', exc=exc_sig(exc)))
+        via_file = mido.MidiFile(type=1, tracks=tracks) if case.get('entry') == 'merged_track' else None
+        if via_file is not None:
+            via_file.merged_track       # an observation before the edits
+
+        def edit_time():
+            tracks[ti][mi].time = tracks[ti][mi].time + edit[2]
+            edited[ti][mi]['time'] += edit[2]
+            return f'adding {edit[2]} ticks to track {ti} message {mi}'
+
+        def edit_move():
+            # ticks move from one message of the track to its neighbour: message count and track duration stay
+            mj = (mi + 1) % len(tracks_d[ti])
+            if mj == mi or edited[ti][mi]['time'] < 1:
+                return None
+            tracks[ti][mi].time = tracks[ti][mi].time - 1
+            tracks[ti][mj].time = tracks[ti][mj].time + 1
+            edited[ti][mi]['time'] -= 1
+            edited[ti][mj]['time'] += 1
+            return f'moving one tick from message {mi} to message {mj} of track {ti}'
+
+        def edit_value():
+            for name, val in (('note', 99), ('control', 99), ('tempo', 123456), ('text', 'edited'), ('program', 99)):
+                if name in edited[ti][mi] and edited[ti][mi][name] != val:
+                    setattr(tracks[ti][mi], name, val)
+                    edited[ti][mi][name] = val
+                    return f'setting {name} of track {ti} message {mi}'
+            return None
+        for do in (edit_time, edit_move, edit_value):
+            try:
+                what = do()
+                if what is None:
+                    continue
+                want2 = F.merge_model(edited)
+                merges = [('merge_tracks', mido.merge_tracks(tracks))]
+                if via_file is not None:
+                    merges.append(('MidiFile.merged_track', via_file.merged_track))
+                for how, res2 in merges:
+                    if len(res2) != len(want2) or any(_same_loose(m, d) for m, d in zip(res2, want2)):
+                        out.append(fail('stale-merge', f'{how} after {what} does not reflect the edit', how=how))
+            except Exception as exc:  # noqa: BLE001
+                out.append(fail('raises', f'merge after an edit: {exc!r}', exc=exc_sig(exc)))
+            if out:
+                break
     return out
 
 
